@@ -255,17 +255,33 @@ def _long_session(ctx: Ctx, item):
     ctx.klass("long_session_packets", len(packets))
 
 
+def _clients(ctx: Ctx, item=None):
+    """Every decoder setting a client accepts (filters by number / id, manufacturer lists, unit preferences in any spelling, network map):
+    the client delivers what a decoder with the same settings returns, also after the link was dropped and re-established."""
+    from nmea2000.consts import PhysicalQuantities as PQ
+    from .. import clientopts as co
+    msgs = (co.standard_traffic(co.CONVERTIBLE + co.FAST + co.KEYED, sources=(1, 2, 3), mfgs=(137, 1855, 229))
+            + [co.claim(3, 999, 137)] + co.standard_traffic(co.CONVERTIBLE[:4] + co.KEYED[:3], sources=(3, 1), claims=False))
+    sets = [("defaults", lambda: {}),
+            ("preferred_units c/DEG/KTS/psi", lambda: {"preferred_units": {PQ.TEMPERATURE: "c", PQ.ANGLE: "DEG", PQ.SPEED: "KTS", PQ.PRESSURE: "psi"}}),
+            ("build_network_map=True", lambda: {"build_network_map": True}),
+            ("exclude_pgns=['WindData', 127250], exclude_manufacturer_code=['Garmin']", lambda: {"exclude_pgns": ["WindData", 127250], "exclude_manufacturer_code": ["Garmin"]}),
+            ("include_pgns=['gnssPositionData', 'temperature', 60928], include_manufacturer_code=['Maretron', 'Garmin'], build_network_map=True",
+             lambda: {"include_pgns": ["gnssPositionData", "temperature", 60928], "include_manufacturer_code": ["Maretron", "Garmin"], "build_network_map": True})]
+    co.run(ctx, "C12", sets, msgs, reconnects=((), (9,)))
+
 def run(ctx: Ctx):
+    pmap(ctx, _clients, [None])
     pmap(ctx, _serial_scenarios, [(0,)])
     pmap(ctx, _long_session, [(k, 3000 if ctx.quick else 40000) for k in aio.CLIENT_KINDS])
     n = 60 if ctx.quick else 4000
     pmap(ctx, _work, [(k, n) for k in aio.CLIENT_KINDS for _ in range(4)])
-    # once more in an interpreter that does not execute assert statements (python -O)
-    from ..common import sub_pass
-    sub_pass(ctx, ["-O"], "python-O")
 
 
 def replay(ctx: Ctx, case):
+    if case.get("clientopts"):
+        from .. import clientopts as co
+        return co.replay("C12", _clients, case)
     if "long_session" in case:
         sub = Ctx(ctx.pid)
         sub.known_open = {}
